@@ -392,4 +392,29 @@ theorem extract_length {β} (seq : Int → β) (compl : β → β) (l : Loc) (hw
   rw [extract_uniform seq compl l l.strand (fun p hp => (hparts p hp).2), List.length_map,
     len_eq_bases_length l (fun p hp => Int.le_of_lt (hparts p hp).1)]
 
+/-! ### features read back through `Record.from_biopython` -/
+
+/-- without `allow_reversing` the origin test answers `location_bridges_origin` and touches nothing -/
+theorem bridgesOriginAR_false (l : Loc) : bridgesOriginAR false l = (bridgesOrigin l, l) := by
+  cases l with
+  | simple p => rfl
+  | compound ps =>
+    simp only [bridgesOriginAR, bridgesOrigin]
+    cases hs : (Loc.compound ps).strand <;> simp
+    split <;> simp_all
+
+/-- a feature that is not a misc_feature keeps its location when read back -/
+theorem readLocation_other (c : Bool) (l : Loc) : readLocation c false l = l := by
+  simp [readLocation, bridgesOriginAR_false]
+
+theorem readLocation_not_bridging (c m : Bool) (l : Loc) (h : bridgesOrigin l = false) : readLocation c m l = l := by
+  simp [readLocation, bridgesOriginAR_false, h]
+
+/-- two exons, neither inside the other (e.g. a codon or a range split over the origin): nothing is redundant -/
+theorem removeRedundant_two (p q : Part) (h1 : partContains p q = false) (h2 : partContains q p = false) :
+    removeRedundantExons (.compound [p, q]) = .compound [p, q] := by
+  by_cases hlen : p.len > q.len
+  · simp [removeRedundantExons, sortBySizeDesc, insertBySizeDesc, hlen, h1]
+  · simp [removeRedundantExons, sortBySizeDesc, insertBySizeDesc, hlen, h2]
+
 end ASV.ProtDna
